@@ -8,6 +8,7 @@ from .. import paths
 from ..core import FUNC, call_attr, calls_in, chain, dotted, kwarg, text, walk_local, norm, is_const, const
 
 EXPLANATION = [
+    'C03.nop-events: Host.on_hci_command_complete_event and on_hci_command_status_event reach on_command_processed only on paths where event.command_opcode is known to be non-zero.',
     'C03.connect-ind-address: Controller.create_le_connection announces in CONNECT_IND the same address expression under which it registers its own Connection.',
     'C03.parse-guard-scope: the try of Controller.on_packet whose handler answers an unparseable command does not contain the dispatch to the command handlers.',
     'C03.cis-disconnect: the CIS branch of on_hci_disconnect_command concludes locally through on_le_cis_disconnected (which also removes a peripheral-side entry), in the same block in which it tells the peer.',
@@ -1286,7 +1287,38 @@ def connect_ind_address(ctx):
     R.check(a is not None and norm(a) == norm(b), rule, f'{CTRL}.create_le_connection', f'both use `{norm(b)}`', f'CONNECT_IND announces `{norm(a) if a is not None else None}` while the central registers the link under `{norm(b)}`: with a public own address the peer files the link under another address, drops the central\'s LL control PDUs (feature exchange, CIS request never concluded) and cannot route its termination back', p.loc(ind[0]))
 
 
+def nop_events(ctx):
+    """A Command Complete / Command Status event for opcode 0 answers no command (it only carries
+    Num_HCI_Command_Packets): on both handlers the path on which `event.command_opcode == 0` never reaches
+    on_command_processed, which would resolve the pending caller with it."""
+    R, p = ctx.r, ctx.p
+    rule = 'C03.nop-events'
+    for name in ('on_hci_command_complete_event', 'on_hci_command_status_event'):
+        fn = p.find(f'{HOST}.{name}')
+        if fn is None:
+            R.bad(rule, f'{HOST}.{name}', 'anchor missing')
+            continue
+        reached = []
+
+        class D(paths.Domain):
+            def assume(self, atom, truth, v):
+                t = norm(atom).replace(' ', '')
+                if t in ('event.command_opcode==0', '0==event.command_opcode'):
+                    return ('nop' if truth else 'cmd',)
+                if t in ('event.command_opcode!=0', '0!=event.command_opcode', 'event.command_opcode'):
+                    return ('cmd' if truth else 'nop',)
+                return (v,)
+
+            def event(self, node, v):
+                if isinstance(node, ast.Call) and dotted(node.func) == 'self.on_command_processed' and v != 'cmd':
+                    reached.append(node)
+                return (v,)
+        paths.run(fn, D(), 'any')
+        R.check(not reached, rule, f'{HOST}.{name}', 'opcode 0 is not handed to on_command_processed', f'{name} passes an event for opcode 0 (flow control only) to on_command_processed: the caller of the command in flight receives it as its response', p.loc(reached[0]) if reached else p.loc(fn))
+
+
 RULES = [
+    ('C03.nop-events', nop_events),
     ('C03.connect-ind-address', connect_ind_address),
     ('C03.parse-guard-scope', parse_guard_scope),
     ('C03.cis-disconnect', cis_disconnect),
